@@ -31,6 +31,30 @@ Proof.
   destruct (Nat.eqb_spec c0 c) as [->|Hne]; cbn in H; [inversion H; left; reflexivity|right; apply IH; exact H].
 Qed.
 
+Lemma in_insert_by_conv : forall {A} (leb : A -> A -> bool) x y l, y = x \/ In y l -> In y (insert_by leb x l).
+Proof.
+  intros A leb x y l. induction l as [|z l IH]; cbn; intro H.
+  - destruct H as [->|[]]. left. reflexivity.
+  - destruct (leb z x); cbn.
+    + destruct H as [->|[->|H]]; [right; apply IH; left; reflexivity|left; reflexivity|right; apply IH; right; exact H].
+    + destruct H as [->|H]; [left; reflexivity|right; exact H].
+Qed.
+
+Lemma in_sort_by_conv : forall {A} (leb : A -> A -> bool) l y, In y l -> In y (sort_by leb l).
+Proof.
+  intros A leb l y. unfold sort_by.
+  assert (G : forall acc, In y acc \/ In y l -> In y (fold_left (fun acc x => insert_by leb x acc) l acc)).
+  { induction l as [|x l IH]; intros acc H; cbn [fold_left]; [destruct H as [H|[]]; exact H|].
+    apply IH. destruct H as [H|[->|H]]; [left; apply in_insert_by_conv; right; exact H|left; apply in_insert_by_conv; left; reflexivity|right; exact H]. }
+  intro H. apply G. right. exact H.
+Qed.
+
+Lemma mapM_in_l : forall {A B} (f : A -> res B) l ys x, mapM f l = Ok ys -> In x l -> exists y, In y ys /\ f x = Ok y.
+Proof.
+  intros A B f l ys x H Hx. apply mapM_ok in H. induction H as [|a b l ys Hab _ IH]; [contradiction|].
+  destruct Hx as [->|Hx]; [exists b; split; [left; reflexivity|exact Hab]|]. destruct (IH Hx) as [y [Hy E]]. exists y. split; [right; exact Hy|exact E].
+Qed.
+
 Section Main.
 Variable p : program.
 Variables design crossing : list nat.
@@ -177,5 +201,38 @@ Proof.
 Qed.
 
 End CodeCombos.
+
+(** (4) the documented multiplicities, over the level tuples *)
+Lemma idx_names_gen : forall (fs ls : list nat), (forall f, In f fs -> In f crossing) -> Forall2 (fun l f => l < nlv p f) ls fs ->
+  mapM (fun fn : nat * name => level_index p (fst fn) (snd fn)) (combine fs (zipw (nm p) fs ls)) = Ok ls.
+Proof.
+  intros fs ls Hin H. induction H as [|l f ls fs Hl _ IH]; [reflexivity|]. unfold zipw in *. cbn [combine map fst snd mapM].
+  assert (Hfd : In f design) by (eapply nth_error_In; apply Hpos; apply Hin; left; reflexivity).
+  rewrite (level_index_nm p design Hsimple Hnames f l Hfd Hl). cbn [bind]. rewrite IH by (intros g Hg; apply Hin; right; exact Hg). reflexivity.
+Qed.
+
+Lemma doc_mult_char : forall (cmb : combos) (P : list nat -> bool) w mult,
+  (forall k v, In (k, v) cmb -> combo_weight p crossing k = Ok v) ->
+  (forall combo, In combo (map fst cmb) <-> exists ls, In ls (IP p crossing) /\ P ls = true /\ zipw (nm p) crossing ls = combo) ->
+  mapM (fun cw : list name * nat =>
+          idx <- mapM (fun fn => level_index p (fst fn) (snd fn)) (combine crossing (fst cw)) ;; Ok (idx, snd cw * w * 1))
+       (sort_by (fun a b => names_leb (fst a) (fst b)) cmb) = Ok mult ->
+  forall x, In x mult <-> exists ls, In ls (IP p crossing) /\ P ls = true /\ x = (ls, W p crossing ls * w * 1).
+Proof.
+  intros cmb P w mult Hv Hk Hm x. split.
+  - intro Hx. destruct (mapM_in _ _ _ _ Hm Hx) as [[combo v] [Hin Hf]]. apply in_sort_by in Hin. cbn [fst snd] in Hf.
+    assert (Hkey : In combo (map fst cmb)) by (apply in_map_iff; exists (combo, v); split; [reflexivity|exact Hin]).
+    apply Hk in Hkey. destruct Hkey as [ls [Hls [HP <-]]]. exists ls. split; [exact Hls|]. split; [exact HP|].
+    rewrite (idx_names_gen crossing ls (fun f Hf' => Hf') (in_IP_lt p crossing ls Hls)) in Hf. cbn [bind] in Hf.
+    pose proof (Hv _ _ Hin) as E. rewrite (combo_weight_names p design crossing Hsimple Hpos HnamesC ls Hls) in E.
+    inversion E; subst v. inversion Hf. reflexivity.
+  - intros [ls [Hls [HP ->]]].
+    assert (Hkey : In (zipw (nm p) crossing ls) (map fst cmb)) by (apply Hk; exists ls; auto).
+    apply in_map_iff in Hkey. destruct Hkey as [[combo v] [E Hin]]. cbn [fst] in E. subst combo.
+    destruct (mapM_in_l _ _ _ _ Hm (in_sort_by_conv _ _ _ Hin)) as [y [Hy Hf]]. cbn [fst snd] in Hf.
+    rewrite (idx_names_gen crossing ls (fun f Hf' => Hf') (in_IP_lt p crossing ls Hls)) in Hf. cbn [bind] in Hf.
+    pose proof (Hv _ _ Hin) as E. rewrite (combo_weight_names p design crossing Hsimple Hpos HnamesC ls Hls) in E.
+    inversion E; subst v. inversion Hf; subst y. exact Hy.
+Qed.
 
 End Main.
